@@ -383,7 +383,30 @@ class Parser:
                 if not hook:
                     stmts.append(("for", pat, it, body))
                 continue
-            if self.at("while") or self.at("loop") or self.at("return") or self.at("break") or self.at("continue"):
+            if self.at("while") and self.at("let", 1):
+                self.next(); self.next()
+                pat = self.parse_pattern()
+                self.expect("=")
+                scrut = self.parse_expr(no_struct=True)
+                body = self.parse_block()
+                if not hook:
+                    stmts.append(("whilelet", pat, scrut, body))
+                continue
+            if self.at("return"):
+                self.next()
+                val = None
+                if not self.at(";"):
+                    val = self.parse_expr()
+                self.expect(";")
+                if not hook:
+                    stmts.append(("return", val))
+                continue
+            if self.at("break") and self.at(";", 1):
+                self.next(); self.next()
+                if not hook:
+                    stmts.append(("break",))
+                continue
+            if self.at("while") or self.at("loop") or self.at("break") or self.at("continue"):
                 self.err("control flow outside the translated subset")
             e = self.parse_expr()
             if self.at("=") or (self.peek()[0] == "p" and self.peek()[1] in ("+=", "-=", "*=", "/=")):
@@ -482,6 +505,9 @@ class Parser:
             return ("unary", "-", self.parse_unary(no_struct))
         if self.accept("*"):
             return ("deref", self.parse_unary(no_struct))
+        if self.at(".."):
+            self.next()
+            return ("range_to", self.parse_expr(no_struct, 3))
         if self.accept("&"):
             self.accept("mut")
             return ("ref", self.parse_unary(no_struct))
@@ -772,6 +798,14 @@ class Emitter:
                 elif s[0] == "for":
                     walk_expr(s[2], local)
                     walk_block(s[3], local | set(self.pat_vars(s[1])))
+                elif s[0] == "whilelet":
+                    walk_expr(s[2], local)
+                    walk_block(s[3], local | set(self.pat_vars(s[1])))
+                elif s[0] == "break":
+                    if "stop__" not in local:
+                        add("stop__")
+                elif s[0] == "return":
+                    walk_expr(s[1], local)     # placement is checked by the emitter (only `if c { return; }` at the top level)
             if b[2] is not None:
                 walk_expr(b[2], local)
 
@@ -779,7 +813,13 @@ class Emitter:
             if e is None:
                 return
             k = e[0]
-            if k == "mcall":
+            if k == "mcall" and self.p.self_call_mut(e) is not None:
+                for nm in self.p.self_call_mut(e)[1]:
+                    if nm not in local:
+                        add(nm)
+                for a in e[4]:
+                    walk_expr(a, local)
+            elif k == "mcall":
                 if self.p.mut_method(e[2], e[1]) is not None:
                     r = e[1]
                     while r[0] in ("paren", "deref", "ref"):
@@ -1031,7 +1071,21 @@ class Emitter:
                 return h[0]
             if e[0] == "call" and e[1][0] == "path" and self.p.fn_mut(e[1][1][-1]) is not None:
                 return self.hoist(e, env)[0]
+            if e[0] == "mcall" and self.p.self_call_mut(e) is not None:
+                return self.hoist(e, env)[0]
             if e[0] in ("if", "iflet", "match"):
+                # a mutation inside the condition / scrutinee happens first
+                pre = []
+                if e[0] == "if":
+                    h = self.hoist(e[1], env)
+                    if h[0]:
+                        pre, e = h[0], ("if", h[1], e[2], e[3])
+                elif e[0] == "iflet":
+                    h = self.hoist(e[2], env)
+                    if h[0]:
+                        pre, e = h[0], ("iflet", e[1], h[1], e[3], e[4])
+                if pre:
+                    return pre + self.stmt(("expr", e), env)
                 ws = self.assigned(e, env)
                 if not ws:
                     return []        # no effect on anything in scope: the statement is dead for the translated semantics
@@ -1040,6 +1094,27 @@ class Emitter:
                 ws = self.assigned(e, env)
                 return [self.let(self.tup(ws), self.run(self.mk(self.block_value(e, env, ws))))] if ws else []
             self.fail("expression statement without effect in the translated subset", e)
+        if k == "break":
+            return [self.let("stop__", "true")]
+        if k == "whilelet":
+            # only: `while let PAT = V.pop_front() { … [if c { …; break; }] }`
+            sc = s[2]
+            if not (sc[0] == "mcall" and sc[2] == "pop_front" and sc[1][0] == "path" and len(sc[1][1]) == 1 and not sc[4]):
+                self.fail("`while let` over anything but `deque.pop_front()`", s)
+            v = sc[1][1][0]
+            self.check_break_last(s[3])
+            ws = [w for w in self.assigned(s[3], env + ["stop__"]) if w not in (v, "stop__")]
+            if v in self.assigned(s[3], env):
+                self.fail("the loop body mutates the deque it pops from", s)
+            if not ws:
+                self.fail("`while let` loop without effect on anything but the deque", s)
+            if not (s[1][0] == "pts" and s[1][1] == ["Some"] and len(s[1][2]) == 1):
+                self.fail("`while let` pattern other than `Some(x)`", s)
+            elem = s[1][2][0]
+            body = self.block_value(s[3], env + self.pat_vars(elem) + ["stop__"], ["stop__"] + ws)
+            st = self.tup(ws)
+            return [self.let("(" + ident(v) + ", " + st + ")",
+                             f"RustLite.whilePop {ident(v)} {st} (fun {self.pat(elem)} {st} => (let stop__ := false; {body}))")]
         if k == "for":
             ws = self.assigned(s[3], env)
             if not ws:
@@ -1050,6 +1125,21 @@ class Emitter:
                 return [f"let {self.tup(ws)} ← List.foldlM (fun {self.tup(ws)} {self.pat(s[1])} => (do {body})) {self.tup(ws)} {it}"]
             return [self.let(self.tup(ws), f"List.foldl (fun {self.tup(ws)} {self.pat(s[1])} => ({body})) {self.tup(ws)} {it}")]
         self.fail("statement", s)
+
+    def check_break_last(self, block):
+        """`break` only as the last statement of a block that is itself last in the loop body"""
+        def ok(b, last):
+            for i, st in enumerate(b[1]):
+                is_last = last and i == len(b[1]) - 1 and b[2] is None
+                if st[0] == "break" and not is_last:
+                    self.fail("`break` that is not the last thing the iteration does", b)
+                if st[0] == "expr" and st[1][0] in ("if", "iflet"):
+                    blk = st[1][2] if st[1][0] == "if" else st[1][3]
+                    ok(blk, is_last)
+                    els = st[1][3] if st[1][0] == "if" else st[1][4]
+                    if els is not None and els[0] == "block":
+                        ok(els, is_last)
+        ok(block, True)
 
     def branch_stmt(self, e, env, ws, with_value=False):
         """an `if` / `if let` / `match` (or block) whose branches assign the outer variables `ws`.  In STATEMENT position
@@ -1113,8 +1203,21 @@ class Emitter:
         ([let-lines performing the mutation], expression AST to use for the value)"""
         chain = []
         cur = e
-        while cur[0] == "mcall" and self.p.mut_method(cur[2], cur[1]) is None:
+        while cur[0] == "mcall" and self.p.mut_method(cur[2], cur[1]) is None and self.p.self_call_mut(cur) is None:
             chain.append(cur); cur = cur[1]
+        if cur[0] == "mcall" and self.p.self_call_mut(cur) is not None:
+            fname, names = self.p.self_call_mut(cur)
+            args = ["self"] + [self.expr(a, env) for a in cur[4]]
+            if self.p.fn_returns(fname):
+                t = self.fresh()
+                lines = [self.let("(" + ", ".join([t] + [ident(n) for n in names]) + ")", self.p.fn_call(fname, args))]
+                val = ("path", [t], None)
+            else:
+                lines = [self.let(self.tup(names), self.p.fn_call(fname, args))]
+                val = ("tuple", [])
+            for c in reversed(chain):
+                val = ("mcall", val, c[2], c[3], c[4])
+            return (lines, val)
         if cur[0] == "call" and cur[1][0] == "path" and self.p.fn_mut(cur[1][1][-1]) is not None:
             # call of another translated function with `&mut` parameters: its result carries their new values
             muts = self.p.fn_mut(cur[1][1][-1])          # indices of the &mut parameters
@@ -1142,7 +1245,8 @@ class Emitter:
         if r[0] == "field" and r[1][0] == "path" and r[1][1] == ["self"]:
             # self.<cell>.m(args): the cell is a field of the receiver record
             cell = ident(r[2])
-            args = " ".join("(" + self.expr(a, env) + ")" for a in cur[4])
+            args = " ".join("(" + (self.p.tuple3_entry(a, self, env) if (fn == "RustLite.mapInsert" and a[0] == "tuple" and len(a[1]) == 3)
+                                   else self.expr(a, env)) + ")" for a in cur[4])
             if returns:
                 t = self.fresh()
                 lines = [self.let(f"({t}, cell_new)", f"{fn} self.{cell} {args}".rstrip()), self.let("self", f"{{ self with {cell} := cell_new }}")]
@@ -1152,7 +1256,8 @@ class Emitter:
                 val = ("tuple", [])
         elif r[0] == "path" and len(r[1]) == 1:
             v = ident(r[1][0])
-            args = " ".join("(" + self.expr(a, env) + ")" for a in cur[4])
+            args = " ".join("(" + (self.p.tuple3_entry(a, self, env) if (fn == "RustLite.mapInsert" and a[0] == "tuple" and len(a[1]) == 3)
+                                   else self.expr(a, env)) + ")" for a in cur[4])
             if returns:
                 t = self.fresh()
                 lines = [self.let(f"({t}, {v})", f"{fn} {v} {args}".rstrip())]
@@ -1194,6 +1299,12 @@ class BaseProfile:
 
     def fn_mut(self, name):
         return None
+
+    def self_call_mut(self, e):
+        return None
+
+    def tuple3_entry(self, e, em, env):
+        raise Untranslatable("tuple entry")
 
     def note_let(self, pat, rhs):
         pass
@@ -1409,6 +1520,7 @@ class PureProfile(BaseProfile):
         self.fns = fns                # translated functions of the same file: name -> {"mut_idx": [...], "implicit": [...]}
         self.uses_float = False
         self.uses_clock = False
+        self.uses_rand = False
 
     FIELDS = {"frequency": "hits", "inserted_at": "birth", "value": "val"}
 
@@ -1433,6 +1545,10 @@ class PureProfile(BaseProfile):
             raise Untranslatable(f"`remove` on a receiver of unknown kind: {recv}")
         if name == "push_back":
             return ("RustLite.pushBack", False)
+        if name == "retain":
+            return ("RustLite.retain", False)
+        if name == "insert" and (recv is None or kind == "map"):
+            return ("RustLite.mapInsert", False)
         if name == "fetch_add":
             return ("RustLite.fetchAdd", True)
         if name == "store" and (recv is None or kind == "atomic"):
@@ -1442,6 +1558,33 @@ class PureProfile(BaseProfile):
     def fn_mut(self, name):
         f = self.fns.get(name)
         return f["mut_idx"] if f and f["mut_idx"] else None
+
+    def self_call_mut(self, e):
+        """`self.f(args)` where f is a translated sibling that mutates `self` and/or `&mut` arguments:
+        (function name, names of the caller's variables that receive the new values, in result order)"""
+        r = e[1]
+        while r[0] in ("paren", "ref", "deref"):
+            r = r[1]
+        if not (r[0] == "path" and r[1] == ["self"]):
+            return None
+        f = self.fns.get(e[2])
+        if not f or not f["mut_idx"]:
+            return None
+        names = []
+        for i in f["mut_idx"]:
+            if i == 0:
+                names.append("self")
+            else:
+                a = e[4][i - 1]
+                while a[0] in ("paren", "ref", "deref"):
+                    a = a[1]
+                if a[0] != "path" or len(a[1]) != 1:
+                    raise Untranslatable(f"argument passed by `&mut` must be a variable: {e}")
+                names.append(a[1][0])
+        return (e[2], names)
+
+    def fn_returns(self, name):
+        return self.fns[name]["ret"] is not None
 
     def fn_call(self, name, args):
         f = self.fns[name]
@@ -1544,6 +1687,10 @@ class PureProfile(BaseProfile):
     def struct(self, segs, fields, em, env):
         return None
 
+    def tuple3_entry(self, e, em, env):
+        """(value, timestamp, frequency): the entry tuple of the async cache"""
+        return f"(RustLite.asyncEntry {em.expr(e[1][0], env)} {em.expr(e[1][1], env)} {em.expr(e[1][2], env)})"
+
     def call(self, segs, generics, args, em, env):
         name = segs[-1]
         if name in self.fns and not self.fns[name]["mut_idx"]:
@@ -1551,6 +1698,9 @@ class PureProfile(BaseProfile):
         if segs[-2:] == ["SystemTime", "now"] and not args:
             self.uses_clock = True
             return "clock.now"
+        if segs == ["fastrand", "usize"] and len(args) == 1 and args[0][0] == "range_to":
+            self.uses_rand = True
+            return f"(RustLite.randBelow r {em.expr(args[0][1], env)})"
         return None
 
     def method(self, recv, name, generics, args, em, env):
@@ -1570,6 +1720,8 @@ class PureProfile(BaseProfile):
             return f"(RustLite.position {A_(0)} {R()})"
         if name == "len" and not args:
             return f"(List.length {R()})"
+        if name == "is_empty" and not args:
+            return f"(List.isEmpty {R()})"
         if name == "get" and len(args) == 1 and kind == "map":
             return f"(lookup {A_(0)} {R()})"
         if name == "contains_key" and len(args) == 1 and kind == "map":
@@ -1667,6 +1819,8 @@ def lean_type(rust, pname):
         return "Bool × Bool", "tuple"
     if base == "f64":
         return "F", "f64"
+    if base == "R":
+        return "V", "val"
     if base == "Self":
         return None, "self"
     raise Untranslatable(f"parameter / return type `{rust}`")
@@ -1683,8 +1837,55 @@ UTIL_FILES = [
     ("Policy", "cachelito-core/src/eviction_policy.rs", None, {}, ["is_valid", "from"]),
     ("Async", "cachelito-core/src/async_global_cache.rs", "RustLite.AsyncCache K V F",
      {"self.cache": "map", "self.order": "deque", "self.frequency_weight": "optf64"},
-     ["find_min_frequency_key", "find_arc_eviction_key", "find_tlru_eviction_key"]),
+     ["find_min_frequency_key", "find_arc_eviction_key", "find_tlru_eviction_key", "is_already_key_inserted",
+      "handle_entry_limit_eviction", "insert"]),
 ]
+
+
+def emit_fn_body(em, f, env, muts):
+    """the body of a translated function: `let`s ending in its result — (value, new values of the mutated parameters).
+    Handles at the top level of the function: `let mut g = self.<field>.lock();` (g aliases the field; written back before
+    every result) and `if c { return [v]; }` (the rest of the body becomes the else branch)."""
+    aliases = []      # (variable, field of self)
+
+    def result(tail_text):
+        wb = [em.let("self", "{ self with " + ident(fl) + " := " + ident(v) + " }") for (v, fl) in aliases]
+        if tail_text is not None:
+            res = "(" + ", ".join([tail_text] + [ident(m) for m in muts]) + ")" if muts else tail_text
+        else:
+            res = em.tup(muts) if muts else "()"
+        return wb, res
+
+    def go(stmts, tail, env):
+        lines = []
+        for idx, st in enumerate(stmts):
+            # lock alias
+            if st[0] == "let" and st[1][0] == "pid" and st[3][0] == "mcall" and st[3][2] == "lock" and \
+                    st[3][1][0] == "field" and st[3][1][1] == ("path", ["self"], None):
+                v, fl = st[1][1], st[3][1][2]
+                aliases.append((v, fl))
+                em.p.kinds[v] = em.p.kinds.get("self." + fl)
+                env.append(v)
+                lines.append(em.let(ident(v), "self." + ident(fl)))
+                continue
+            # early return
+            if st[0] == "expr" and st[1][0] == "if" and st[1][3] is None and len(st[1][2][1]) == 1 and \
+                    st[1][2][1][0][0] == "return" and st[1][2][2] is None:
+                h = em.hoist(st[1][1], env)
+                lines += h[0]
+                cond = em.expr(h[1], env)
+                rv = st[1][2][1][0][1]
+                wb, res = result(em.expr(rv, env) if rv is not None else None)
+                early = "; ".join(wb + [res])
+                rest = go(stmts[idx + 1:], tail, list(env))
+                lines.append(f"if {cond} then ({early}) else (\n  {rest})")
+                return "\n  ".join(lines)
+            lines += em.stmt(st, env)
+        wb, res = result(em.expr(tail, env) if tail is not None else None)
+        return "\n  ".join(lines + wb + [res])
+
+    b = f["body"]
+    return "  " + go(list(b[1]), b[2], list(env))
 
 
 def translate_utils(module):
@@ -1733,16 +1934,7 @@ def translate_utils(module):
             env = [p[0] for p in f["params"]]
             if f["ret"] is None and f["body"][2] is not None:       # unit function ending in a block-like statement
                 f["body"] = ("block", f["body"][1] + [("expr", f["body"][2])], None)
-            b = f["body"]
-            lines = []
-            for st in b[1]:
-                lines += em.stmt(st, env)
-            if b[2] is not None:
-                tailv = em.expr(b[2], env)
-                res = "(" + ", ".join([tailv] + [ident(m) for m in muts]) + ")" if muts else tailv
-            else:
-                res = em.tup(muts) if muts else "()"
-            body = "\n".join("  " + l for l in lines + [res])
+            body = emit_fn_body(em, f, env, muts)
             bodies[name] = (sig, body, prof, f, muts)
         # implicit parameters (float structure / clock), propagated through calls
         changed = True
@@ -1752,6 +1944,8 @@ def translate_utils(module):
                 need[n].add("A")
             if bodies[n][2].uses_clock:
                 need[n].add("clock")
+            if bodies[n][2].uses_rand:
+                need[n].add("r")
         while changed:
             changed = False
             for n in wanted:
@@ -1759,7 +1953,7 @@ def translate_utils(module):
                     if m != n and re.search(r"\b" + re.escape(m) + r"\b", bodies[n][1]) and not need[m] <= need[n]:
                         need[n] |= need[m]; changed = True
         for n in wanted:
-            table[n]["implicit"] = [x for x in ("A", "clock") if x in need[n]]
+            table[n]["implicit"] = [x for x in ("A", "clock", "r") if x in need[n]]
         # second emission now that implicit arguments of callees are known
         for name in wanted:
             hdr, f = byname[name]
@@ -1770,20 +1964,14 @@ def translate_utils(module):
             prof = PureProfile(kinds, table)
             em = Emitter(prof, f"{rel}:{f['line']} ({name})")
             env = [p[0] for p in f["params"]]
-            lines = []
-            for st in f["body"][1]:
-                lines += em.stmt(st, env)
-            if f["body"][2] is not None:
-                tailv = em.expr(f["body"][2], env)
-                res = "(" + ", ".join([tailv] + [ident(m) for m in muts]) + ")" if muts else tailv
-            else:
-                res = em.tup(muts) if muts else "()"
-            body = "\n".join("  " + l for l in lines + [res])
+            body = emit_fn_body(em, f, env, muts)
             imp = []
             if "A" in need[name]:
                 imp.append("(A : RustLite.F64 F)")
             if "clock" in need[name]:
                 imp.append("(clock : RustLite.Clock)")
+            if "r" in need[name]:
+                imp.append("(r : Nat)")
             lname = {"from": "policyFrom", "is_valid": "policyIsValid"}.get(name, name)
             if lname != name:
                 table[name]["lean_name"] = lname
